@@ -36,6 +36,11 @@ def grammar(sizes, model_name, calls=CALLS, positions="all", rng=None):
     for call in calls:
         for k in TEAMS_KINDS:
             out.append({"call": call, "arg": "teams", "kind": k})
+        for m in MODEL_NAMES:
+            if m != model_name:
+                # a well-formed game of ANOTHER model, in the very list object that model has
+                # just accepted
+                out.append({"call": call, "arg": "teams", "kind": "accepted_by:" + m})
         for i in range(n):
             for k in TEAM_KINDS:
                 out.append({"call": call, "arg": "team", "kind": k, "pos": [i]})
@@ -171,6 +176,11 @@ def build_call(desc, model_name, teams):
             t = []
         elif kind == "len1":
             t = [t[0]]
+        elif kind.startswith("accepted_by:"):
+            other = model_class(kind.split(":", 1)[1])()
+            t = [[other.rating(mu=p.mu, sigma=p.sigma, name="foreign") for p in x] for x in teams]
+            other.predict_win(t)
+            other.predict_draw(t)
         else:
             raise ValueError(kind)
     elif arg == "team":
